@@ -9,6 +9,7 @@ import (
 	"encoding/binary"
 	"flag"
 	"fmt"
+	"strconv"
 	"strings"
 
 	capnp "capnproto.org/go/capnp/v3"
@@ -227,11 +228,97 @@ func validCase(s *Session) (string, string) {
 	for i, sg := range segs {
 		hs[i] = Hx(sg)
 	}
-	line := "V " + strings.Join(hs, ",") + " 20"
-	return line, validObs(segs)
+	// the walk unfolds shared and cyclic structure: pick the deepest fuel whose unfolding is small
+	fuel := 1
+	for _, f := range []int{20, 8, 4, 2} {
+		if unfoldSize(segs, f, 30000) <= 30000 {
+			fuel = f
+			break
+		}
+	}
+	line := fmt.Sprintf("V %s %d", strings.Join(hs, ","), fuel)
+	return line, validObs(segs, fuel)
 }
 
-func validObs(segs [][]byte) string {
+// unfoldSize: number of pointer visits of a walk of the root with the given depth fuel
+// (memoised on (pointer position, fuel); saturates above limit).
+func unfoldSize(segs [][]byte, fuel, limit int) int {
+	type key struct{ seg, off, fuel int }
+	memo := map[key]int{}
+	word := func(seg, off int) (uint64, bool) {
+		if seg < 0 || seg >= len(segs) || off < 0 || off+8 > len(segs[seg]) {
+			return 0, false
+		}
+		return binary.LittleEndian.Uint64(segs[seg][off:]), true
+	}
+	var visit func(seg, off, fuel int) int
+	sat := func(a, b int) int {
+		if a+b > limit {
+			return limit + 1
+		}
+		return a + b
+	}
+	visit = func(seg, off, fuel int) int {
+		if fuel <= 0 {
+			return 1
+		}
+		k := key{seg, off, fuel}
+		if v, ok := memo[k]; ok {
+			return v
+		}
+		memo[k] = limit + 1
+		n := 1
+		w, ok := word(seg, off)
+		if ok && w != 0 {
+			tseg, base := seg, off+8
+			switch {
+			case w&3 == 2 && w&4 == 0:
+				tseg, base = int(w>>32), int(uint32(w)>>3)*8+8
+				w, ok = word(tseg, base-8)
+			case w&3 == 2:
+				ps, po := int(w>>32), int(uint32(w)>>3)*8
+				f, ok1 := word(ps, po)
+				tag, ok2 := word(ps, po+8)
+				ok = ok1 && ok2
+				tseg, base, w = int(f>>32), int(uint32(f)>>3)*8, tag
+			}
+			if ok && w&3 < 2 {
+				addr := base + int(int32(uint32(w))>>2)*8
+				if w&3 == 0 {
+					dw, pc := int(w>>32&0xffff), int(w>>48)
+					for i := 0; i < pc && n <= limit; i++ {
+						n = sat(n, visit(tseg, addr+8*dw+8*i, fuel-1))
+					}
+				} else {
+					et, cnt := int(w>>32&7), int(w>>35)
+					switch et {
+					case 6:
+						for i := 0; i < cnt && n <= limit; i++ {
+							n = sat(n, visit(tseg, addr+8*i, fuel-1))
+						}
+					case 7:
+						if tag, ok := word(tseg, addr); ok {
+							c, dw, pc := int(int32(uint32(tag))>>2), int(tag>>32&0xffff), int(tag>>48)
+							for e := 0; e < c && n <= limit; e++ {
+								n = sat(n, 1)
+								for i := 0; i < pc && n <= limit; i++ {
+									n = sat(n, visit(tseg, addr+8+8*(e*(dw+pc)+dw+i), fuel-2))
+								}
+							}
+						}
+					default:
+						n = sat(n, cnt/64)
+					}
+				}
+			}
+		}
+		memo[k] = n
+		return n
+	}
+	return visit(0, 0, fuel)
+}
+
+func validObs(segs [][]byte, fuel int) string {
 	return Safely(func() string {
 		m, err := capnp.Unmarshal(frameOf(segs))
 		if err != nil {
@@ -240,7 +327,7 @@ func validObs(segs [][]byte) string {
 		m.TraverseLimit = 1 << 40
 		var sb strings.Builder
 		p, err := m.Root()
-		rd.Walk(&sb, p, err, 1000000, 1000000, 20)
+		rd.Walk(&sb, p, err, 1000000, 1000000, fuel)
 		return "valid;T" + sb.String()
 	})
 }
@@ -279,7 +366,8 @@ func replayCase(line string) (string, string) {
 				segs = append(segs, Unhx(x))
 			}
 		}
-		return "valid", validObs(segs)
+		fuel, _ := strconv.Atoi(f[2])
+		return "valid", validObs(segs, fuel)
 	}
 	if len(f) < 8 {
 		return "bad", "bad-case"
